@@ -234,13 +234,15 @@ def drift_check(ctx, traces, batches, tag, stats):
 # ------------------------------------------------------------------------------------------------ run
 def run(ctx):
     T = ctx.thorough
-    os.environ.setdefault("JAVA_TOOL_OPTIONS", "-Xmx3g")      # many TLC processes run side by side: bound each JVM
+    os.environ.setdefault("JAVA_TOOL_OPTIONS", "-Xmx2g")      # many TLC processes run side by side: bound each JVM
     binary = ctx.build_harness("c08")
     sd = ctx.spec_dir(SPEC)
     ctx.cov["rule"] = ("case = (old tree, payload, verb, endpoint, one injected failure); cases = terminal states of the bounded "
                        "TLA+ model (every payload kind x every failure step) + seeded random cases over a wider universe; "
                        "non-trivial = the update failed after at least one file had been written; distinct by case")
-    ctx.cov["checker_cmd"] = "tlc -config MC_quick.cfg MC_C08.tla ; tlc -config GenC08.cfg GenC08.tla ; tlc -config CfgTraceP.cfg CfgTraceP.tla"
+    ctx.cov["checker_cmd"] = ("tlc -config MC_quick.cfg|MC_thorough.cfg|MC_thorough3.cfg MC_C08.tla ; tlc -config MC_nv_<flag>.cfg MC_C08.tla ; "
+                              "tlc -config GenC08.cfg|GenC08_full.cfg GenC08.tla ; tlc -config CfgTraceP.cfg CfgTraceP.tla ; "
+                              "tlc -config CfgTraceI.cfg CfgTraceI.tla")
     ctx.cov["trusted_base"] = ["TLC 1.8", "CommunityModules Json", "Go toolchain",
                                "loopback fake of the HAProxy admin / health API (harness/cmd/c08)",
                                "probe projection: header written by the flow's TransformAPICall processor = version of that flow file",
@@ -256,7 +258,7 @@ def run(ctx):
     def stage(job):
         kind, arg = job
         if kind == "mc":
-            return ctx.tlc_exhaustive(sd, "MC_C08", arg, timeout=1500, heap="4g", workers=(8 if T else 6),
+            return ctx.tlc_exhaustive(sd, "MC_C08", arg, timeout=1500, heap="3g", workers=(8 if T else 6),
                                       label="I=>P, all cases x all interleavings of probes")
         if kind == "nv":
             return ctx.tlc(sd, "MC_C08", "MC_nv_%s.cfg" % arg, workers=2, timeout=600, heap="1g",
@@ -272,16 +274,16 @@ def run(ctx):
     jobs = [("mc", "MC_quick.cfg" if not T else "MC_thorough.cfg")] + [("nv", f) for f in flags] + \
            [("rand", rbatches), ("gen", "GenC08.cfg" if not T else "GenC08_full.cfg")]
     if T:
-        jobs.insert(1, ("mc", "MC_thorough3.cfg"))
-        jobs.insert(2, ("gen", "GenC08_thorough.cfg"))
+        jobs += [("mc", "MC_thorough3.cfg"), ("gen", "GenC08_mx.cfg"), ("gen", "GenC08_thorough.cfg")]
     res = parallel(stage, jobs, n=len(jobs))
+    byjob = {(k, a if isinstance(a, str) else "batches"): r for (k, a), r in zip(jobs, res)}
     for (kind, arg), r in zip(jobs, res):
         if kind == "nv" and r.violated is None:
             raise Broken("model cannot tell deviation %s from the property (vacuous refinement check): %r" % (arg, r))
-    g, rtraces = res[-1], res[-2]
-    for (kind, arg), r in zip(jobs, res):
         if kind == "gen" and not r.ok:
             raise Broken("case generation %s failed: %r" % (arg, r))
+    rtraces = byjob[("rand", "batches")]
+    g = byjob[("gen", "GenC08.cfg" if not T else "GenC08_full.cfg")]
     outs = tlc_vh_lines(g.out)
     if len(outs) < 1000:
         raise Broken("case generation produced %d outcomes: %s" % (len(outs), g.out[-1500:]))
@@ -297,19 +299,19 @@ def run(ctx):
     rng.shuffle(health)
     ngen = 420 if not T else len(gen)
     sel = gen[:ngen]
-    ctx.cov["exhaustive"] = bool(T)       # thorough: every case of the two-flow instance (GenC08_full.cfg) is replayed
-    if T:                                  # plus a seeded sample of the three-flow instance
-        o3 = tlc_vh_lines(res[2].out)
-        c3 = {}
-        for o in o3:
-            c = from_model(o)
-            if (c.get("fault") or {}).get("point") != "health":
-                c3.setdefault(case_key(c), c)
-                predicted.setdefault(case_key(c), (c, []))[1].append(o)
-        extra = [c3[k] for k in sorted(c3) if k not in {case_key(x) for x in sel[:0]}]
-        rng.shuffle(extra)
-        sel = sel + extra[:4000]
-        ctx.log("three-flow instance: %d cases generated, %d sampled" % (len(c3), min(4000, len(extra))))
+    ctx.cov["exhaustive"] = bool(T)       # thorough: every case of the two-flow instances (GenC08_full.cfg, GenC08_mx.cfg) is replayed
+    if T:      # plus every case of the instance without a user metrics file, plus a seeded sample of the three-flow instance
+        for cfgname, take in (("GenC08_mx.cfg", None), ("GenC08_thorough.cfg", 4000)):
+            cs = {}
+            for o in tlc_vh_lines(byjob[("gen", cfgname)].out):
+                c = from_model(o)
+                if (c.get("fault") or {}).get("point") != "health":
+                    cs.setdefault(case_key(c), c)
+                    predicted.setdefault(case_key(c), (c, []))[1].append(o)
+            extra = [cs[k] for k in sorted(cs)]
+            rng.shuffle(extra)
+            sel = sel + (extra if take is None else extra[:take])
+            ctx.log("%s: %d cases generated, %d replayed" % (cfgname, len(cs), len(extra) if take is None else min(take, len(extra))))
     # (3) code -> spec: seeded random cases over a wider universe (three flows, quota / path-parameter files, several bad files,
     #     other verbs, concurrent probe goroutines), recorded and validated together with the generated ones
     ctx.log("TLC generated %d outcomes / %d cases; replaying %d of them + %d seeded random cases + %d health-check failures" % (
